@@ -409,13 +409,13 @@ func (ex *Exec) inputInt(name, kind string, ii intInfo) *Term {
 	return v
 }
 
-const bigBVWidth = 192
+const defaultBigW = 192
 
 func (ex *Exec) bigConst(v *big.Int) *Term {
 	if ex.intMode {
 		return ex.ts.IntConst(v)
 	}
-	return ex.ts.BVBig(bigBVWidth, v)
+	return ex.ts.BVBig(ex.bigW, v)
 }
 
 func init() {
@@ -486,12 +486,18 @@ func init() {
 			v = ex.ts.Var("in:"+name, IntSort)
 			ex.declareInput(name, "big", v)
 		} else {
-			v = ex.ts.Var("in:"+name, BV(bigBVWidth))
-			ex.declareInput(name, "bigbv", v)
-			// stated bound: |v| < 2^(W-66) so that sums, products by 64-bit factors and shifts by < 64 stay exact
-			lim := new(big.Int).Lsh(big.NewInt(1), bigBVWidth-66)
-			ex.assertPC(ex.ts.And(ex.ts.BVCmp("bvslt", v, ex.ts.BVBig(bigBVWidth, lim)), ex.ts.BVCmp("bvsgt", v, ex.ts.BVBig(bigBVWidth, new(big.Int).Neg(lim)))))
-			ex.assumptions[fmt.Sprintf("big integers in bv mode are %d-bit two's complement with |v| < 2^%d", bigBVWidth, bigBVWidth-66)] = true
+			w := ex.bigW
+			v = ex.ts.Var("in:"+name, BV(w))
+			ex.declareInput(name, fmt.Sprintf("bigbv:%d", w), v)
+			// stated bound: |v| < 2^(W-66) (W-2 for narrow widths) so that sums, products by
+			// 64-bit factors and shifts by < 64 stay exact
+			lb := w - 66
+			if lb < 66 {
+				lb = w - 2
+			}
+			lim := new(big.Int).Lsh(big.NewInt(1), uint(lb))
+			ex.assertPC(ex.ts.And(ex.ts.BVCmp("bvslt", v, ex.ts.BVBig(w, lim)), ex.ts.BVCmp("bvsgt", v, ex.ts.BVBig(w, new(big.Int).Neg(lim)))))
+			ex.assumptions[fmt.Sprintf("big integers in bv mode are %d-bit two's complement with |v| < 2^%d", w, lb)] = true
 		}
 		rt := fn.Signature.Results().At(0).Type().(*types.Pointer).Elem()
 		o := ex.newObjectWith(rt, "vxBig "+name, BigV{T: v})
